@@ -280,9 +280,9 @@ namespace IpcHub.Pipeline
 open IpcHub.Depack
 
 /-- the FLV worker survives every frame whose video payload is non-empty once it waits for the parameter sets -/
-theorem flvStep_alive (cfg : Cfg) (hw : cfg.flvWaitsForParameterSets = true) (c : VCodec) (hasAac : Bool) (m : VMeta)
+theorem flvStep_alive (cfg : Cfg) (hw : cfg.flvWaitsForParameterSets = true) (spsOk : Bytes → Bool) (c : VCodec) (hasAac : Bool) (m : VMeta)
     (s : FlvSt) (f : Frame) (hf : f.audio = false → f.payload ≠ []) :
-    (flvStep cfg c hasAac m s f).1.alive = s.alive := by
+    (flvStep cfg spsOk c hasAac m s f).1.alive = s.alive := by
   have key : ∀ {α : Type} (a b : α),
       (match f.audio, f.payload with | false, [] => a | _, _ => b) = b := by
     intro α a b
@@ -298,7 +298,7 @@ theorem flvStep_alive (cfg : Cfg) (hw : cfg.flvWaitsForParameterSets = true) (c 
     by_cases hd : s.headerDone
     · simp [hd, ha]
     · simp only [hd, Bool.false_eq_true, if_false]
-      by_cases hr : seqReady c m
+      by_cases hr : seqReady cfg spsOk c m
       · simp only [hr, Bool.not_true, Bool.false_eq_true, if_false]
         cases c with
         | h264 =>
@@ -326,8 +326,8 @@ theorem tsStep_alive (cfg : Cfg) (hc : cfg.tsAacChecked = true) (ascOk : Bool) (
       | cons b bs => simp [ha]
   · simp [ha]
 
-theorem feedFlv_alive (cfg : Cfg) (hw : cfg.flvWaitsForParameterSets = true) (c : VCodec) (hasAac : Bool) (m : VMeta) :
-    ∀ (fs : List Frame) (s : FlvSt), VideoNonempty fs → (feedFlv cfg c hasAac m s fs).1.alive = s.alive := by
+theorem feedFlv_alive (cfg : Cfg) (hw : cfg.flvWaitsForParameterSets = true) (spsOk : Bytes → Bool) (c : VCodec) (hasAac : Bool) (m : VMeta) :
+    ∀ (fs : List Frame) (s : FlvSt), VideoNonempty fs → (feedFlv cfg spsOk c hasAac m s fs).1.alive = s.alive := by
   intro fs
   induction fs with
   | nil => intro s _; rfl
@@ -335,7 +335,7 @@ theorem feedFlv_alive (cfg : Cfg) (hw : cfg.flvWaitsForParameterSets = true) (c 
     intro s h
     simp only [feedFlv]
     rw [ih _ (fun g hg => h g (List.mem_cons_of_mem _ hg)),
-        flvStep_alive cfg hw c hasAac m s f (h f (List.mem_cons_self ..))]
+        flvStep_alive cfg hw spsOk c hasAac m s f (h f (List.mem_cons_self ..))]
 
 theorem feedTs_alive (cfg : Cfg) (hc : cfg.tsAacChecked = true) (ascOk : Bool) (m : VMeta) :
     ∀ (fs : List Frame) (s : TsSt), VideoNonempty fs → (feedTs cfg ascOk m s fs).1.alive = s.alive := by
@@ -356,7 +356,7 @@ theorem step_alive (dc : Depack.Cfg) (hdc : SafeCfg dc) (cfg : Cfg) (hw : cfg.fl
   simp only [step]
   have hv := demuxStep_out dc spsOk s.demux i
   refine ⟨demuxStep_alive dc hdc spsOk s.demux i, ?_, ?_⟩
-  · exact feedFlv_alive cfg hw _ _ _ _ _ hv
+  · exact feedFlv_alive cfg hw _ _ _ _ _ _ hv
   · cases hasTs with
     | true => exact feedTs_alive cfg hc _ _ _ _ hv
     | false => rfl
